@@ -128,8 +128,8 @@ pub fn collections_stream(rep: &mut Report, rng: &mut Rng, n: usize) {
 // ---------------------------------------------------------------------------------------------
 
 /// canonical rendering of one result row: each item by type and handle(s)
-fn row(items: &QueryResultItems) -> String {
-    items.iter().map(|it| match it {
+pub fn row_item(it: &QueryResultItem) -> String {
+    match it {
         QueryResultItem::None => "none".to_string(),
         QueryResultItem::Annotation(a) => format!("A{}", a.handle().as_usize()),
         QueryResultItem::AnnotationData(d) => format!("D{}.{}", d.set().handle().as_usize(), d.handle().as_usize()),
@@ -138,8 +138,9 @@ fn row(items: &QueryResultItems) -> String {
         QueryResultItem::AnnotationDataSet(s) => format!("S{}", s.handle().as_usize()),
         QueryResultItem::TextSelection(t) => format!("T{}:{}-{}", t.resource().handle().as_usize(), t.begin(), t.end()),
         _ => "?".to_string(),
-    }).collect::<Vec<_>>().join("+")
+    }
 }
+fn row(items: &QueryResultItems) -> String { items.iter().map(row_item).collect::<Vec<_>>().join("+") }
 
 /// run a query given as text; Err = refused (syntax or unsupported combination)
 pub fn run_text(store: &AnnotationStore, q: &str) -> Result<Vec<String>, String> {
@@ -153,9 +154,9 @@ pub fn run_text(store: &AnnotationStore, q: &str) -> Result<Vec<String>, String>
     })) { Ok(r) => r, Err(m) => Err(format!("PANIC {} @{}", m.chars().take(80).collect::<String>(), last_panic_loc())) }
 }
 
-struct Vocab { res: Vec<String>, sets: Vec<String>, anns: Vec<String>, keys: Vec<(String, String)>, data: Vec<(String, String, String)>, words: Vec<String> }
+pub struct Vocab { pub res: Vec<String>, pub sets: Vec<String>, pub anns: Vec<String>, pub keys: Vec<(String, String)>, pub data: Vec<(String, String, String)>, pub words: Vec<String> }
 
-fn vocab(store: &AnnotationStore) -> Vocab {
+pub fn vocab(store: &AnnotationStore) -> Vocab {
     let mut v = Vocab { res: vec![], sets: vec![], anns: vec![], keys: vec![], data: vec![], words: vec![] };
     for r in store.resources() { if let Some(id) = r.id() { v.res.push(id.to_string()); } for w in r.text().split(' ').filter(|w| !w.is_empty() && w.is_ascii()).take(3) { v.words.push(w.to_string()); } }
     for s in store.datasets() {
@@ -189,7 +190,7 @@ fn constraint(rng: &mut Rng, v: &Vocab, rtype: &str) -> Option<String> {
     })
 }
 
-fn as_set(v: &[String]) -> BTreeSet<String> { v.iter().cloned().collect() }
+pub fn as_set(v: &[String]) -> BTreeSet<String> { v.iter().cloned().collect() }
 
 pub fn check_store(rep: &mut Report, script: &[String], rng: &mut Rng) {
     let mut ex = Exec::new();
@@ -303,6 +304,8 @@ pub fn run(opts: &Opts) -> Report {
         "query",
         "helper collections: 2000 (quick) / 20000 random pairs of handle lists (sorted and unsorted) through union, intersection, contains, position; LimitIter exhaustively for begin, end in -9..9 and lengths 0..7; \
          queries: stores from seeded operation histories of the store family; for each of the six result types constraints drawn from the store's own vocabulary (data, key, value, text, resource, dataset, annotation, annotation-as-target, id, metadata), checked alone, in every order, as a conjunction against the intersection of the members' results, as a disjunction against the union, and with random LIMIT against the slice; \
+         structured queries (query2): STAMQL text vs. the same query built with Query::new/with_constraint; single constraints vs. the iterator API; sub-query chains of depth 2 and 3 (OPTIONAL or not) vs. nested iteration level by level with the outer variables bound, the shape of the iteration also through the Lean model of QueryIter (sq lines); a constraint on a variable vs. the constant form; ADD (one or two targets, COMPOSITE/MULTI/DIRECTIONAL, with/without ID) and DELETE (all five item types) vs. the direct calls on a second copy of the store, compared by full observation; \
+         iterator API (iterapi): every filter_* method of the annotation, data, key, dataset, resource and text selection iterators against Iterator::filter with the documented predicate; \
          non-trivial = a multi-constraint query or a non-empty slice; distinct = distinct (store, query)",
     );
     let mut rng = Rng::new(opts.seed.wrapping_mul(23_000_009));
@@ -317,6 +320,9 @@ pub fn run(opts: &Opts) -> Report {
         // every annotation gets a public identifier (the union of all identifiers serves as a primary constraint that admits every annotation)
         let script: Vec<String> = script.into_iter().enumerate().map(|(k, l)| if l.starts_with("st annot ~ ") { l.replacen("st annot ~ ", &format!("st annot z{} ", k), 1) } else { l }).collect();
         check_store(&mut rep, &script, &mut rng);
+        crate::fam::query2::check_store2(&mut rep, &script, &mut rng);
+        crate::fam::query2::check_mut(&mut rep, &script, &mut rng);
+        crate::fam::iterapi::check_iterators(&mut rep, &script, &mut rng);
         if i == 0 { rep.sample(json!({"script": script})); }
     }
     let _ = observe;
@@ -330,6 +336,8 @@ pub fn debug(path: &str) {
     let mut in_q = false;
     for l in text.lines() {
         if l.trim() == "--" { in_q = true; continue; }
-        if !in_q { ex.exec(l); } else { println!("{}\n   => {:?}", l, run_text(&ex.store, l)); }
+        if !in_q { ex.exec(l); }
+        else if l.starts_with("ADD") || l.starts_with("DELETE") { let r = crate::fam::query2::run_mut(&mut ex.store, l); println!("{}\n   => {:?}\n   store afterwards: {}", l, r, observe(&ex.store)); }
+        else { println!("{}\n   => {:?}", l, run_text(&ex.store, l)); }
     }
 }
